@@ -234,7 +234,9 @@ def interpret(prog, nodes, x, value_only=False):
       if k == 'addvar':
         v.value = v.value + float(ins[3])
       elif k == 'mulvar':
-        v.value = v.value * 2.0
+        # doubling wraps around at 4096: values stay integers that float32 sums represent exactly in any order
+        # (a thorough soak reached 1.3e8 after 24 doublings and reported a rounding difference as a violation)
+        v.value = jnp.mod(v.value * 2.0, 4096.0)
       elif k == 'xadd':
         v.value = v.value + jnp.sum(x)
       else:
